@@ -792,7 +792,36 @@ func suiteReuse(tier string, seed uint64, model string) *Report {
 			rep.Add(Disagreement{Case: "sen.Parser with a token function that keeps its arguments", Where: "sen.Parser", Kind: "impl-law:returned-value-altered", Impl: out, Spec: "the arguments and the results stay as delivered"})
 		}
 	}
-	rep.Rule = "directed: arguments of a SEN token function kept by the caller; histories of 2-8 calls on one oj.Parser / gen.Parser / sen.Parser (Reuse on and off), oj.Validator, oj/sen Tokenizer (OnlyOne on and off), oj/sen Writer, and through the pooled package-level functions; inputs: valid, multi-document, >4096 bytes, mutated, and 45 inputs that stop in every scratch state (partial literal, number, string, escape, \\u, surrogate, BOM, SEN '+'); buffer / reader / chunked reader / failing reader; options: callbacks of both signatures, a callback or handler that panics (aborted call), result channel, the three NumConvMethods, an invalid option; writers: 8 option presets switched between calls, string / bytes / io.Writer / failing io.Writer / Marshal with the writer, unencodable values; each call compared with the same call on a fresh instance; every returned value re-inspected after each later call with the input buffers overwritten; non-trivial = calls that are not first in their history"
+	// directed: a gen.Parser that has run with Reuse still delivers independent documents once a
+	// channel turns the recycling off
+	for k := 0; k < 5; k++ {
+		rep.Evaluations++
+		out := safe(func() string {
+			p := &gen.Parser{Reuse: true}
+			if _, err := p.Parse([]byte(fmt.Sprintf(`{"warm":%d,"x":{"y":1}}`, k))); err != nil {
+				return "E " + err.Error()
+			}
+			ch := make(chan gen.Node, 8)
+			if _, err := p.Parse([]byte(`{"id":1} {"id":2} {"id":3,"z":{"a":1}}`), ch); err != nil {
+				return "E " + err.Error()
+			}
+			close(ch)
+			var docs []string
+			for n := range ch {
+				docs = append(docs, Show(n))
+			}
+			last, err := p.Parse([]byte(`{"id":9}`))
+			if err != nil {
+				return "E " + err.Error()
+			}
+			_, _ = p.Parse([]byte(`{"other":true}`))
+			return strings.Join(docs, " ") + " | " + Show(last)
+		})
+		if want := "{k6964 i1} {k6964 i2} {k6964 i3 k7a {k61 i1}} | {k6964 i9}"; out != want {
+			rep.Add(Disagreement{Case: "gen.Parser{Reuse:true}: object, then three objects on a channel, then two plain parses", Where: "gen.Parser", Kind: "impl-law:returned-value-altered", Impl: out, Spec: want})
+		}
+	}
+	rep.Rule = "directed: gen.Parser documents on a channel after a Reuse run; arguments of a SEN token function kept by the caller; histories of 2-8 calls on one oj.Parser / gen.Parser / sen.Parser (Reuse on and off), oj.Validator, oj/sen Tokenizer (OnlyOne on and off), oj/sen Writer, and through the pooled package-level functions; inputs: valid, multi-document, >4096 bytes, mutated, and 45 inputs that stop in every scratch state (partial literal, number, string, escape, \\u, surrogate, BOM, SEN '+'); buffer / reader / chunked reader / failing reader; options: callbacks of both signatures, a callback or handler that panics (aborted call), result channel, the three NumConvMethods, an invalid option; writers: 8 option presets switched between calls, string / bytes / io.Writer / failing io.Writer / Marshal with the writer, unencodable values; each call compared with the same call on a fresh instance; every returned value re-inspected after each later call with the input buffers overwritten; non-trivial = calls that are not first in their history"
 	return rep
 }
 
